@@ -50,7 +50,9 @@ func (e *SpecEnv) Tr(x ast.Expr) (t T, err error) {
 			panic(r)
 		}
 	}()
-	return e.tr(x), nil
+	t = e.tr(x)
+	e.cur.FlushSide()
+	return t, nil
 }
 
 func (e *SpecEnv) TrBool(x ast.Expr) (T, error) {
@@ -161,8 +163,12 @@ func (e *SpecEnv) valTerm(v Val, name string) T {
 		if v.Kind == PHeap && len(v.Path) == 0 {
 			return WithGo(v.Ref, types.NewPointer(v.Root))
 		}
-		sfail("%s is an interior pointer; use *%s", name, name)
+		// a pointer to a local or into an object: only its non-nilness is expressible
+		return T{S: "@ptr:" + name, Sort: "PtrX"}
 	case *IfaceVal:
+		if v.Term.IsZero() {
+			v.Term = e.ex.ifaceTerm(e.cur, v)
+		}
 		return v.Term
 	}
 	sfail("%s has no term representation (%T)", name, v)
@@ -281,6 +287,8 @@ func (e *SpecEnv) equal(a, b T, x ast.Expr) T {
 	}
 	if b.Sort == "Nil" {
 		switch a.Sort {
+		case "PtrX":
+			return Bool(false)
 		case SIface:
 			return Eq(a, T{S: "inil", Sort: SIface})
 		case SBytes:
@@ -489,6 +497,28 @@ func (e *SpecEnv) call(x *ast.CallExpr) T {
 			return t
 		}
 		sfail("g(%q): not found or not representable", s)
+	case "join":
+		// join(a, b, ...): strings.Join([a b ...], "/") as a key-family constructor
+		var parts []T
+		for _, a := range x.Args {
+			p := e.tr(a)
+			if p.Sort != SBytes {
+				sfail("join: argument of sort %s", p.Sort)
+			}
+			parts = append(parts, p)
+		}
+		return e.ex.JoinTerm(parts, "/")
+	case "joinsep":
+		lit, ok := x.Args[0].(*ast.BasicLit)
+		if !ok {
+			sfail("joinsep: first argument must be a string literal")
+		}
+		sep, _ := strconv.Unquote(lit.Value)
+		var parts []T
+		for _, a := range x.Args[1:] {
+			parts = append(parts, e.tr(a))
+		}
+		return e.ex.JoinTerm(parts, sep)
 	case "traceN":
 		return e.cur.traceN
 	case "traceAt":
@@ -561,7 +591,7 @@ func typeArgString(x ast.Expr) string {
 
 // StoreID is the stable integer id of a module store name.
 func (ex *Exec) StoreID(name string) T {
-	return IntLit(int64(1000 + ex.Lits.ID("store:"+name)))
+	return IntLit(ex.Lits.ID("store:" + name))
 }
 
 // LookupType finds a named type by "pkgsuffix.Name" (e.g. "x/assets/types.StakerAssetInfo") among
@@ -599,4 +629,26 @@ func (ex *Exec) LookupType(name string) types.Type {
 		}
 	}
 	return nil
+}
+
+// JoinTerm is the term for strings.Join(parts, sep) with a literal separator and 1..4 parts:
+// an (assumed injective) key-family constructor.
+func (ex *Exec) JoinTerm(parts []T, sep string) T {
+	if len(parts) == 0 {
+		return ex.Lits.Term("")
+	}
+	if len(parts) == 1 {
+		return parts[0]
+	}
+	if len(parts) > 4 {
+		sfail("join of more than 4 parts")
+	}
+	id := IntLit(ex.Lits.ID("join:"+sep)*8 + int64(len(parts)))
+	args := []T{id}
+	args = append(args, parts...)
+	for len(args) < 5 {
+		args = append(args, bnilT)
+	}
+	ex.Assumed["key algebra: strings.Join(parts, \""+sep+"\") is injective in its parts (parts contain no separator)"] = true
+	return App(SBytes, "kf", args...)
 }
